@@ -119,7 +119,7 @@ def codegen(crate, features):
     return p.returncode == 0, (p.stdout + p.stderr)
 
 
-CHECK_RE = re.compile(r'^Check (\d+): (\S+)\n\t - Status: (\w+)\n\t - Description: "(.*)"\n\t - Location: (.*)$', re.M)
+CHECK_RE = re.compile(r'^Check (\d+): (.+)\n\t - Status: (\w+)\n\t - Description: "(.*)"\n\t - Location: (.*)$', re.M)
 
 
 def classify(desc, name):
